@@ -167,6 +167,8 @@ C02B_Clauses(cfg, D) ==
    itemBudget   |-> Applies => \A i \in 1..cfg.n : D.pipes[i].ran =>
                        /\ PipeBudgetOK(cfg, D.pipes[i])
                        /\ (D.pipes[i].allfailed => Len(D.pipes[i].outs) = N(cfg)),
+   \* with a budget of at least one every item is attempted (continue mode: nothing may pre-empt an item's attempts)
+   everyItemAttempted |-> (Applies /\ ~cfg.stopmode /\ PrepOk(D) /\ N(cfg) >= 1) => \A i \in 1..cfg.n : D.pipes[i].ran,
    itemFallback |-> Applies => \A i \in 1..cfg.n : D.pipes[i].ran =>
                        /\ PipeFbOK(cfg, D.pipes[i])
                        /\ (cfg.fb /\ D.pipes[i].allfailed /\ Len(D.pipes[i].outs) = N(cfg) => Len(D.pipes[i].fbs) = 1)
